@@ -60,6 +60,7 @@ fn main() {
         let n: usize = args[5].parse().unwrap();
         match prop {
             "C03" => netrun::worker(prop, t, shard, n, checks::c03::cases, checks::c03::run_case),
+            "C07" => netrun::worker(prop, t, shard, n, checks::c07::cases, checks::c07::run_case),
             _ => std::process::exit(2),
         }
     }
@@ -75,6 +76,7 @@ fn main() {
         "C12" => checks::c12::run(&tier, replay),
         "C14" => checks::c14::run(&tier, replay),
         "C03" => checks::c03::run(&tier, replay),
+        "C07" => checks::c07::run(&tier, replay),
         "C17" => checks::c17::run(&tier, replay),
         "C05" => checks::c05::run(&tier, replay),
         "C04" => checks::c04::run_function_only(&tier, replay),
